@@ -373,6 +373,8 @@ SIG_D8 = "C01:D8:stale-implied-need-keeps-optional-step-built"
 SIG_F4 = "C01:F4:stale-amended-input-blocks-redefined-step"
 SIG_F5 = "C01:F5:reattached-static-file-not-revalidated"
 SIG_F6 = "C01:F6:env-var-restored-to-declared-value-leaves-stale-output"
+SIG_F7 = "C01:F7:env-var-changed-while-step-detached-then-recycled"
+SIG_F8 = "C01:F8:glob-match-added-while-registrant-detached-then-recycled"
 MISSING_RE = "PathError: Path does not exist: "
 
 
@@ -510,11 +512,41 @@ def signatures(inc: e3.BuildResult, scr: e3.BuildResult, diffs: list, triggers: 
                     and raw_inc.get(c, {}).get("props", {}).get("inp_digest") != \
                     raw_scr.get(c, {}).get("props", {}).get("inp_digest"):
                 stale_env.add(c)
+    # keys that were detached at the end of some earlier build of the history
+    detached_before = set()
+    for res in earlier or ():
+        for key in e3.parse_graph(res.graph):
+            if key.startswith("("):
+                detached_before.add(key[1:-1])
     if stale_env:
         cone = _downstream(va, stale_env) | _downstream(vb, stale_env)
         mine = [d for d in diffs if id(d) not in explained and (d["kind"] == "rc" or d["key"] in cone)]
-        sigs[SIG_F6] = mine
+        # F7: the variable changed while the step sat detached (rescan_env_vars skips detached
+        # steps) and the step was then fully recycled; F6: it never was detached
+        sigs[SIG_F7 if stale_env & detached_before else SIG_F6] = mine
         explained |= {id(d) for d in mine}
+    # F8: a step that registered a glob was detached while a new match appeared (the startup
+    # rescan of globs skips detached registrants), then fully recycled without running again:
+    # what its run would declare for the new match is missing
+    registrants = {k for k, ent in va.items() if ent["kind"] == "step" and ent["state"] == "SUCCEEDED"
+                   and ent["props"]["nglob"] and k in detached_before
+                   and k in vb and vb[k]["state"] == "SUCCEEDED"}
+    if registrants:
+        def under(k):
+            seen = set()
+            while k in vb and k not in seen:
+                seen.add(k)
+                if k in registrants:
+                    return True
+                k = vb[k]["creator"]
+            return False
+        seeds = {d["key"] for d in diffs if id(d) not in explained and d["kind"].startswith("missing-")
+                 and under(d["key"])}
+        if seeds:
+            cone = _downstream(vb, seeds) | seeds
+            mine = [d for d in diffs if id(d) not in explained and (d["kind"] == "rc" or d["key"] in cone)]
+            sigs[SIG_F8] = mine
+            explained |= {id(d) for d in mine}
     # F5: a static file shows a state or digest that the file system contradicts: it was
     # re-attached by a full recycle of its declaring (sub-)plan after the startup rescan, which
     # only looks at attached files.
